@@ -71,13 +71,13 @@ def read_transition_table(P) -> (Dict[str, Set[str]], ast.AST):
         raise AnalysisError("anchor VALID_TRANSITIONS (module-level table) not found in runtime_status.py")
     d = asg["VALID_TRANSITIONS"]
     if not isinstance(d, ast.Dict):
-        raise AnalysisError("VALID_TRANSITIONS is not a dict literal; the table cannot be read statically")
+        raise AnalysisError("anchor VALID_TRANSITIONS as a literal table of OperatorState members not found (the table is computed: the documented machine cannot be read off the source)")
     tab: Dict[str, Set[str]] = {}
     for k, v in zip(d.keys, d.values):
         ks = state_of(k) if k is not None else None
         vs = _members(v)
         if ks is None or vs is None:
-            raise AnalysisError(f"VALID_TRANSITIONS entry {norm.U(k) if k else '**'} is not a literal of OperatorState members")
+            raise AnalysisError(f"anchor VALID_TRANSITIONS entry {norm.U(k) if k else None} as a literal of OperatorState members not found")
         tab.setdefault(ks, set()).update(vs)
     return tab, d
 
@@ -559,6 +559,9 @@ def run(ctx):
     check_status_identity(ctx, 3)
     check_assignment_ctor(ctx, 4)
     check_container_factory(ctx, 5)
+    # "at most one live container per operator": an accepted assignment reaches exactly one pool (the executor's routing, C09#1)
+    from . import c09
+    c09.check_routing(Renumber(ctx, {1: 5}), 1)
     check_suffix_slices(ctx, 6)
     check_op_idx(ctx, 7)
     # "an operator belongs to at most one live container": operators are handed back (PENDING / FAILED / COMPLETED) exactly when their
